@@ -346,7 +346,9 @@ def run(ctx):
     check_text(ctx)
     check_decode_stores(ctx)
     check_codes(ctx)
-    from .c02 import check_dynamic
+    from .c02 import check_dynamic, check_start_defaults
+
+    check_start_defaults(ctx, "C01.B2")
 
     sub = type(ctx)(ctx.prop, ctx.tier, ctx.seed, ctx.repo)
     check_dynamic(sub, "C01.T4")
